@@ -244,4 +244,114 @@ theorem dropWhile_replicate_append {α : Type} (p : α → Bool) (x : α) (hx : 
   | succ a ih => simp [List.replicate_succ, List.dropWhile_cons, hx, ih]
 
 
+
+/-! ### the grid actually exported: first row and header slices -/
+
+theorem zipRowsN_cons (R : Nat) (Bs : List (List String × List (List String))) :
+    zipRowsN (R + 1) (Bs.map (fun b => b.1 :: b.2)) = (Bs.flatMap (·.1)) :: zipRowsN R (Bs.map (·.2)) := by
+  induction Bs with
+  | nil => simp [zipRowsN, List.replicate_succ]
+  | cons b bs ih => simp [zipRowsN, ih]
+
+section
+variable {V : Type}
+
+def Block.tailRows (c : Codec V) (descRow : Bool) (total : Nat) (b : Block V) : List (List String) :=
+  (if descRow then [b.descRow] else []) ++ b.periods.map (b.dataRow c) ++ List.replicate (total - b.periods.length) b.emptyRow
+
+theorem rows_eq (c : Codec V) (d : Bool) (total : Nat) (b : Block V) :
+    b.rows c d total = b.nameRow :: b.tailRows c d total := by
+  simp [Block.rows, Block.tailRows]
+
+/-- the first row of the zipped grid is the concatenation of the blocks' name rows -/
+theorem zipRows_nameRow (c : Codec V) (d : Bool) (total R : Nat) (Bs : List (Block V)) :
+    zipRowsN (R + 1) (Bs.map (Block.rows c d total))
+      = Bs.flatMap Block.nameRow :: zipRowsN R (Bs.map (Block.tailRows c d total)) := by
+  induction Bs with
+  | nil => simp [zipRowsN, List.replicate_succ]
+  | cons b bs ih => simp [zipRowsN, ih, rows_eq]
+
+theorem goodNames_withFreq (ss : List (String × Ser V)) (h : GoodNames ss) (f : BFreq) : GoodNames (withFreq ss f) :=
+  fun p hp => h p (List.mem_filter.mp hp).1
+
+theorem goodNames_exportBlocksWith (fs : FSpan) (ss : List (String × Ser V)) (h : GoodNames ss) :
+    ∀ b ∈ exportBlocksWith fs ss, GoodNames b.members := by
+  intro b hb
+  unfold exportBlocksWith at hb
+  obtain ⟨e, _, he⟩ := List.mem_filterMap.mp hb
+  dsimp only at he
+  split at he
+  · simp at he
+  · simp only [Option.some.injEq] at he
+    subst he
+    exact goodNames_withFreq ss h e.1
+
+/-- the name row of the grid actually exported (any frequency-span selection) -/
+theorem exportGridWith_nameRow (c : Codec V) (d : Bool) (fs : FSpan) (db : Box (Ser V) V)
+    (hne : (exportBlocksWith fs (seriesOf db)).isEmpty = false) :
+    ∃ rest, exportGridWith c d fs db = (exportBlocksWith fs (seriesOf db)).flatMap Block.nameRow :: rest := by
+  unfold exportGridWith
+  simp only [hne, Bool.false_eq_true, if_false]
+  have : headerRows d + totalRowsWith fs (seriesOf db) = (headerRows d - 1 + totalRowsWith fs (seriesOf db)) + 1 := by
+    cases d <;> simp [headerRows] <;> omega
+  rw [this, zipRows_nameRow]
+  exact ⟨_, rfl⟩
+
+theorem slice_at (f : BFreq) (pre : List String) (x : String) (body post : List String) :
+    sliceRow ⟨f, pre.length, body.length⟩ (pre ++ x :: (body ++ post)) = body
+      ∧ dateCell ⟨f, pre.length, body.length⟩ (pre ++ x :: (body ++ post)) = x := by
+  constructor
+  · have e : pre ++ x :: (body ++ post) = (pre ++ [x]) ++ (body ++ post) := by simp
+    have l : (pre ++ [x]).length = pre.length + 1 := by simp
+    simp only [sliceRow]
+    rw [e, ← l, List.drop_left]
+    simp
+  · simp [dateCell, List.getD_eq_getElem?_getD]
+
+theorem descCells_length (m : List (String × Ser V)) (h : GoodNames m) :
+    (m.flatMap (fun p => starCont p.2.desc p.2.nv)).length = (m.map (fun p => p.2.nv)).sum := by
+  induction m with
+  | nil => rfl
+  | cons p rest ih =>
+    have hp := h p (by simp)
+    have hr : GoodNames rest := fun q hq => h q (List.mem_cons_of_mem _ hq)
+    simp [List.flatMap_cons, starCont_length _ _ hp.2.2.2, ih hr]
+
+theorem nameRow_length (b : Block V) (h : GoodNames b.members) : b.nameRow.length = b.width := by
+  simp [Block.nameRow, Block.width, nameCells_length _ h]; omega
+
+theorem descRow_length (b : Block V) (h : GoodNames b.members) : b.descRow.length = b.width := by
+  simp [Block.descRow, Block.width, descCells_length _ h]; omega
+
+theorem flatMap_rows_length (Bs : List (Block V)) (h : ∀ b ∈ Bs, GoodNames b.members) :
+    (Bs.flatMap Block.descRow).length = (Bs.flatMap Block.nameRow).length := by
+  induction Bs with
+  | nil => rfl
+  | cons b bs ih =>
+    simp only [List.flatMap_cons, List.length_append]
+    rw [ih (fun x hx => h x (List.mem_cons_of_mem _ hx)), nameRow_length b (h b (by simp)), descRow_length b (h b (by simp))]
+
+/-- on the concatenated header rows, the slice of the block at its own offset is that block's own cells -/
+theorem header_slices (B1 B2 : List (Block V)) (b : Block V) (h : ∀ x ∈ B1 ++ b :: B2, GoodNames x.members) :
+    let raw : RawBlock := ⟨b.freq, (B1.flatMap Block.nameRow).length, b.width - 1⟩
+    sliceRow raw ((B1 ++ b :: B2).flatMap Block.nameRow) = b.members.flatMap (fun p => starCont p.1 p.2.nv) ++ [""]
+      ∧ sliceRow raw ((B1 ++ b :: B2).flatMap Block.descRow) = b.members.flatMap (fun p => starCont p.2.desc p.2.nv) ++ [""] := by
+  have hb : GoodNames b.members := h b (by simp)
+  have h1 : ∀ x ∈ B1, GoodNames x.members := fun x hx => h x (by simp [hx])
+  have ln : (b.members.flatMap (fun p => starCont p.1 p.2.nv) ++ [""]).length = b.width - 1 := by
+    simp [nameCells_length _ hb, Block.width]; omega
+  have ld : (b.members.flatMap (fun p => starCont p.2.desc p.2.nv) ++ [""]).length = b.width - 1 := by
+    simp [descCells_length _ hb, Block.width]; omega
+  constructor
+  · have := (slice_at b.freq (B1.flatMap Block.nameRow) (mark b.freq)
+      (b.members.flatMap (fun p => starCont p.1 p.2.nv) ++ [""]) (B2.flatMap Block.nameRow)).1
+    rw [ln] at this
+    simpa [List.flatMap_append, Block.nameRow] using this
+  · have := (slice_at b.freq (B1.flatMap Block.descRow) ""
+      (b.members.flatMap (fun p => starCont p.2.desc p.2.nv) ++ [""]) (B2.flatMap Block.descRow)).1
+    rw [ld, flatMap_rows_length B1 h1] at this
+    simpa [List.flatMap_append, Block.descRow] using this
+
+end
+
 end IrisVerif.Grid
